@@ -194,55 +194,98 @@ theorem resolved_not_pending {c : Cfg} {s : State} (h : Inv c s) {r : Req} (hres
   intro hp
   exact hd x.req (List.mem_map.mpr ⟨x, hx, rfl⟩) x.req (List.mem_append_left _ hp) rfl
 
-/-! ### what `eventOf` can produce, for every reply payload of the model (review C07-3/4) -/
+/-! ### what `eventOf` can produce, for every reply payload of the model (review C07-3/4)
+
+`Reply` now covers the whole of `UnindexedOrderError` (connectivity errors as the client's answer,
+asset-carrying and nameless API errors), so these lemmas are statements about every answer an
+`ExecutionClient` can give. -/
 
 /-- Whatever the client's answer is, an emitted event has the request's kind, the key the client
 echoed (response) or the request's own key (timeout), the exchange of that key, a configured key
-if it is a response, and says `timeout` exactly when the future timed out. -/
+if it is a response, and carries the error value `Connectivity(Timeout)` exactly when the future
+timed out **or** the client itself answered `Err(Connectivity(Timeout))` (the two are the same
+`OrderError` value in the code: manager.rs:356, 412 vs indexer.rs:255). -/
 theorem eventOf_some (c : Cfg) (r : Req) (f : Fate) (e : Event) (h : eventOf c r f = some e) :
     e.kind = r.spec.kind ∧
       (f = .response → e.key = r.spec.script.echo) ∧ (f = .timeout → e.key = r.spec.key) ∧
       e.exchange = e.key.exchange ∧ (f = .response → c.configured e.key = true) ∧
-      (f = .timeout ↔ e.outcome = .timeout) := by
+      (e.outcome = .timeout ↔ f = .timeout ∨ r.spec.script.reply = .connectivity .timeout) := by
   obtain ⟨rid, t0, ⟨kind, key, body, ⟨delay, reply, fills, echo, echoBody⟩⟩⟩ := r
   cases f <;> cases kind <;>
     simp only [eventOf, processOpenResponse, processCancelResponse, processOpenTimeout,
-      processCancelTimeout, indexKey, openOutcome, indexReply] at h
+      processCancelTimeout, indexKey, openOutcome] at h
   · by_cases hc : c.configured echo = true
-    · cases reply with
-      | ok => simp [hc] at h; subst h; simp [hc]; split <;> simp
-      | rejected => simp [hc] at h; subst h; simp [hc]
-      | invalidIns i =>
-        by_cases hi : i < c.nInstr
-        · simp [hc, hi] at h; subst h; simp [hc]
-        · simp [hc, hi] at h
+    · rcases reply with _ | _ | i | (_ | _ | _) | a | a | k
+      · simp [hc] at h; subst h; simp [hc]; split <;> simp
+      · simp [hc, indexReply] at h; subst h; simp [hc]
+      · by_cases hi : i < c.nInstr
+        · simp [hc, hi, indexReply] at h; subst h; simp [hc]
+        · simp [hc, hi, indexReply] at h
+      · simp [hc, indexReply] at h; subst h; simp [hc]
+      · simp [hc, indexReply] at h; subst h; simp [hc]
+      · simp [hc, indexReply] at h; subst h; simp [hc]
+      · by_cases ha : a < c.nAssets
+        · simp [hc, ha, indexReply, findAssetIndex] at h; subst h; simp [hc]
+        · simp [hc, ha, indexReply, findAssetIndex] at h
+      · by_cases ha : a < c.nAssets
+        · simp [hc, ha, indexReply, findAssetIndex] at h; subst h; simp [hc]
+        · simp [hc, ha, indexReply, findAssetIndex] at h
+      · simp [hc, indexReply] at h; subst h; simp [hc]
     · simp [hc] at h
   · by_cases hc : c.configured echo = true
-    · cases reply with
-      | ok => simp [hc] at h; subst h; simp [hc]
-      | rejected => simp [hc] at h; subst h; simp [hc]
-      | invalidIns i =>
-        by_cases hi : i < c.nInstr
-        · simp [hc, hi] at h; subst h; simp [hc]
-        · simp [hc, hi] at h
+    · rcases reply with _ | _ | i | (_ | _ | _) | a | a | k
+      · simp [hc, indexReply] at h; subst h; simp [hc]
+      · simp [hc, indexReply] at h; subst h; simp [hc]
+      · by_cases hi : i < c.nInstr
+        · simp [hc, hi, indexReply] at h; subst h; simp [hc]
+        · simp [hc, hi, indexReply] at h
+      · simp [hc, indexReply] at h; subst h; simp [hc]
+      · simp [hc, indexReply] at h; subst h; simp [hc]
+      · simp [hc, indexReply] at h; subst h; simp [hc]
+      · by_cases ha : a < c.nAssets
+        · simp [hc, ha, indexReply, findAssetIndex] at h; subst h; simp [hc]
+        · simp [hc, ha, indexReply, findAssetIndex] at h
+      · by_cases ha : a < c.nAssets
+        · simp [hc, ha, indexReply, findAssetIndex] at h; subst h; simp [hc]
+        · simp [hc, ha, indexReply, findAssetIndex] at h
+      · simp [hc, indexReply] at h; subst h; simp [hc]
     · simp [hc] at h
   · simp at h; subst h; simp
   · simp at h; subst h; simp
 
+/-- The reply names something the indexer cannot translate: an instrument name outside the
+configured ones (`find_instrument_index` fails) or an ASSET name outside the configured ones
+(`find_asset_index` fails; `AssetInvalid` and `BalanceInsufficient` carry one). -/
+def Reply.unindexable (c : Cfg) : Reply → Prop
+  | .invalidIns i => c.nInstr ≤ i
+  | .assetInvalid a | .balanceInsufficient a => c.nAssets ≤ a
+  | _ => False
+
+theorem indexReply_none_iff (c : Cfg) (rp : Reply) : indexReply c rp = none ↔ rp.unindexable c := by
+  rcases rp with _ | _ | i | (_ | _ | _) | a | a | k <;>
+    simp [indexReply, findAssetIndex, Reply.unindexable] <;> omega
+
 /-- Exactly when a completed future yields NO event (`continue`, manager.rs:282-289 / 308-315): it
 completed with the client's response and the indexer rejects either the echoed key or the
-instrument named in the error. -/
+instrument / asset named in the error. Connectivity errors and nameless API errors are never
+filtered. -/
 theorem eventOf_none_iff (c : Cfg) (r : Req) (f : Fate) :
     eventOf c r f = none ↔ f = .response ∧ (c.configured r.spec.script.echo = false ∨
-      ∃ i, r.spec.script.reply = .invalidIns i ∧ c.nInstr ≤ i) := by
+      r.spec.script.reply.unindexable c) := by
   obtain ⟨rid, t0, ⟨kind, key, body, ⟨delay, reply, fills, echo, echoBody⟩⟩⟩ := r
   cases f <;> cases kind <;>
     simp only [eventOf, processOpenResponse, processCancelResponse, processOpenTimeout,
-      processCancelTimeout, indexKey, openOutcome, indexReply]
-  · by_cases hc : c.configured echo = true <;> cases reply <;> simp [hc]
-    rename_i i; by_cases hi : i < c.nInstr <;> simp [hi] <;> omega
-  · by_cases hc : c.configured echo = true <;> cases reply <;> simp [hc]
-    rename_i i; by_cases hi : i < c.nInstr <;> simp [hi] <;> omega
+      processCancelTimeout, indexKey, openOutcome]
+  · by_cases hc : c.configured echo = true
+    · have := indexReply_none_iff c reply
+      rcases reply with _ | _ | i | (_ | _ | _) | a | a | k <;>
+        simp_all [Reply.unindexable] <;> (cases hr : indexReply c _ <;> simp_all)
+    · simp [hc]
+  · by_cases hc : c.configured echo = true
+    · have := indexReply_none_iff c reply
+      simp only [hc, if_true, true_and, reduceCtorEq, false_or]
+      cases hr : indexReply c reply <;> simp_all
+    · simp [hc]
   · simp
   · simp
 
